@@ -600,6 +600,25 @@ func (c *coordinator) addScheduler(scheduler schedule.Scheduler, args ...string)
 	return nil
 }
 
+// undoAddScheduler stops a scheduler that addScheduler has just started and puts back the scheduling
+// configuration that was served before it. It is for the caller that could not persist the configuration
+// with the new scheduler.
+func (c *coordinator) undoAddScheduler(name string, oldCfg *config.ScheduleConfig) {
+	c.Lock()
+	defer c.Unlock()
+	s, ok := c.schedulers[name]
+	if !ok {
+		return
+	}
+	c.cluster.opt.SetScheduleConfig(oldCfg)
+	if err := c.cluster.storage.RemoveScheduleConfig(name); err != nil {
+		log.Error("can not remove the scheduler config", errs.ZapError(err))
+	}
+	s.Stop()
+	schedulerStatusGauge.WithLabelValues(name, "allow").Set(0)
+	delete(c.schedulers, name)
+}
+
 func (c *coordinator) removeScheduler(name string) error {
 	c.Lock()
 	defer c.Unlock()
@@ -612,12 +631,15 @@ func (c *coordinator) removeScheduler(name string) error {
 	}
 
 	opt := c.cluster.opt
+	oldCfg := opt.GetScheduleConfig()
 	if err := c.removeOptScheduler(opt, name); err != nil {
 		log.Error("can not remove scheduler", zap.String("scheduler-name", name), errs.ZapError(err))
 		return err
 	}
 
 	if err := opt.Persist(c.cluster.storage); err != nil {
+		// the scheduler keeps running: keep serving the configuration that lists it
+		opt.SetScheduleConfig(oldCfg)
 		log.Error("the option can not persist scheduler config", errs.ZapError(err))
 		return err
 	}
